@@ -290,6 +290,16 @@ impl Card {
         }
     }
 
+    /// The misbehaviour ends. A command frame the card had only partly received when it froze is forgotten (on a real
+    /// card the chip-select edge between two host transactions does that).
+    pub fn heal(&mut self) {
+        self.fault = Fault::None;
+        if matches!(self.rx, Rx::Cmd(_)) {
+            self.rx = Rx::Idle;
+        }
+        self.horizon = self.exchanges + 50_000_000;
+    }
+
     /// A card that has already been identified (for sweeps that skip initialisation).
     pub fn new_ready(kind: Kind, csd: [u8; 16], crc_on: bool) -> Card {
         let mut c = Card::new(kind, csd);
